@@ -152,10 +152,16 @@ def choiceOut (c : Model.Proxy.Choice) : String :=
   let p := match c.port with | none => "!" | some p => toString p
   s!"{h} {p} {authOut c.auth}"
 
-/-- the environment's proxy URL is inside the modelled alphabet (no "%" to unquote). -/
+/-- a proxy URL of the environment the model reads faithfully: URL alphabet; "%" only before the last "@" (the userinfo),
+    every escape there decoding to ASCII. -/
+def proxyUrlModelled (v : Str) : Bool :=
+  let afterAt := (v.reverse.takeWhile (· != '@')).reverse
+  let upToAt := v.take (v.length - afterAt.length)
+  v.all (fun c => urlAlphabet c || c == '%') && !afterAt.contains '%' &&
+    (if upToAt.isEmpty then !v.contains '%' else Model.Proxy.unquoteModelled upToAt)
+
 def proxyEnvModelled (secure : Bool) (env : List (String × Str)) : Bool :=
-  let v := Spec.NoProxy.envProxy secure env
-  v.all urlAlphabet && !v.contains '%'
+  proxyUrlModelled (Spec.NoProxy.envProxy secure env)
 
 def mProxyInfo (host : Str) (secure : Bool) (oh : Str) (op : Nat) (oa : Option (Str × Str))
     (onp : List Str) (env : List (String × Str)) : String :=
@@ -279,7 +285,7 @@ def ops : List String → Option String
     | _, _, _, _, _, _, _ => none
   | ["m-env-proxy", v] =>
     (pStr v).map fun v =>
-      if !(v.all urlAlphabet && !v.contains '%') then "unmodelled"
+      if !proxyUrlModelled v then "unmodelled"
       else exnOut choiceOut (Model.Proxy.envProxyParse Model.Url.bracketOk v)
   | ["m-tunnel-req", h, p, a] =>
     match pStr h, pNat p, pAuth a with
